@@ -634,15 +634,32 @@ def _fresh_main(path):
         job = json.load(fh)
     import_repo()
     warn_error = "warn:error" in job.get("import_first", [])
+    if "adhoc_first" in job.get("import_first", []):
+        # another ORDER OF FIRST USE: ad-hoc field classes are created and used before any curve module is imported
+        # (class-level tables filled by whoever comes first would now be filled by them)
+        import py_ecc.fields  # noqa: F401
+        from vf.props import _fields_common as fc_
+        for impl, p_, mc2 in ADHOC[::-1]:
+            FQ_, FQ2_, _ = fc_.make(impl, p_, mc2=mc2)
+            x_ = FQ2_([3, 4]) * FQ2_([5, 6])
+            x_ = x_ * x_.inv() + FQ2_([FQ_(1), FQ_(2)])
     for name in job.get("import_first", []):
-        if name == "warn:error":
+        if name in ("warn:error", "adhoc_first"):
             continue
         if name.startswith("attr:"):
             # reach the subpackage the other way: as an attribute of the package (its lazy __getattr__)
             getattr(importlib.import_module("py_ecc"), name[5:])
         else:
             importlib.import_module(name)
-    W = World()
+    try:
+        W = World()
+    except Exception as e:  # noqa
+        from vf.harness import in_repo_frame
+        if in_repo_frame(e.__traceback__):
+            # the library cannot even be imported / set up after what ran before it in this interpreter
+            print(json.dumps({"__setup_failed__": f"{type(e).__name__}: {e}"[:300]}))
+            return
+        raise
     R = Runner(W, fresh=True)
     out = {}
     if warn_error:
@@ -685,6 +702,15 @@ def check_fresh(ctx, W, R, orders):
     lit = literalise(W, R.steps, descs)
     for order, first in orders:
         got = fresh_process_results(lit, order, first)
+        if "__setup_failed__" in got:
+            v = Violation("C20", "history", "fresh_process_setup_fails",
+                          {"steps": R.steps[:3], "fresh": [[order, first]]},
+                          f"in a fresh interpreter with the prelude {first} the library fails to import / initialise: "
+                          f"{got['__setup_failed__']}",
+                          {"sub": "history", "kind": "fresh_process_setup_fails"})
+            if FIRST_VIOLATION[0] is None:
+                FIRST_VIOLATION[0] = v
+            raise v
         for i in order:
             if got[str(i)] != json.loads(canon(descs[i])):
                 v = Violation("C20", "history", f"fresh_process_differs:{R.steps[i]['f']}",
@@ -903,7 +929,8 @@ def make_machine(ctx, W, budget, fresh_every):
                 rev = idx[::-1]
                 perm = sorted(idx, key=lambda q: (q * 7919 + n) % (n + 3))
                 orders = [[rev, ["flag:-O"] if counter["histories"] % (2 * fresh_every) == 0 else ["warn:error"]],
-                          [perm, ["attr:secp256k1", "py_ecc.bls", "attr:bn128", f"env:PYTHONHASHSEED={1 + counter['histories'] % 997}"]]]
+                          [perm, ["attr:secp256k1", "py_ecc.bls", "attr:bn128", f"env:PYTHONHASHSEED={1 + counter['histories'] % 997}"]
+                           + (["adhoc_first"] if counter["histories"] % (3 * fresh_every) == 0 else [])]]
                 ctx.case = {"steps": self.R.steps, "fresh": orders}
                 check_fresh(ctx, W, self.R, orders)
             if n:
@@ -1019,7 +1046,8 @@ def t_pinned(ctx):
                                        [list(range(n)), ["attr:secp256k1", "attr:bls", "attr:optimized_bn128"]],
                                        [list(range(n)), ["flag:-O", "env:PYTHONHASHSEED=4242"]],
                                        [list(range(n)), ["warn:error"]],
-                                       [list(range(n)), ["flag:-bb"]]]}
+                                       [list(range(n)), ["flag:-bb"]],
+                                       [list(range(n)), ["adhoc_first"]]]}
     ctx.ev(n)
     o_history(ctx, case)
     for g in ("field", "curve", "pairing", "hash", "codec", "bls", "secp"):
